@@ -27,6 +27,7 @@ hashable tuples:
 Collections, Option, Result(Ok), Box, references and Cow are *transparent*: a term describes the
 element(s).
 """
+import os
 import re
 import sys
 sys.setrecursionlimit(100000)
@@ -161,14 +162,30 @@ class Prov:
         self.unknowns = []
 
     def is_origin_adt(self, adt):
-        if adt in self.private_adts:
-            # a module-private helper record is never part of the data model: look through it
-            return False
         if adt.startswith(ORIGIN_MODULES) or adt in ORIGIN_ADTS:
             return True
         if not adt.startswith(WORKSPACE_PREFIXES):
             return True
         return False
+
+    def fields_through_private(self, t, depth=2):
+        """origin fields of t, looking through module-private helper records (`Helper.x <- Helper{..}` is replaced by the
+        fields of what was stored in x): private records are plumbing, not part of the data model"""
+        out = set()
+        for s_ in subterms(t):
+            if s_[0] == 'field':
+                adt = s_[2]
+                if adt in self.private_adts and depth > 0:
+                    for b_ in ([s_[1]] if s_[1][0] != 'join' else list(s_[1][1])):
+                        if b_[0] == 'agg':
+                            afn = self.fn_by_key.get(b_[2])
+                            node = afn.nodes.get(b_[3]) if afn is not None else None
+                            for f in (node or {}).get('fields', []):
+                                if f['name'] == s_[3] and 'e' in f:
+                                    out |= self.fields_through_private(self.eval(afn, f['e'], self.envs[b_[4]], 0), depth - 1)
+                else:
+                    out.add(adt.split('::')[-1] + '.' + s_[3])
+        return out
 
     # ---- env registry ------------------------------------------------------------------------
     def envid(self, env):
@@ -1241,7 +1258,8 @@ def leaves(t, conds=()):
     """flatten join/if/match alternatives: yields (conds, leaf).  conds = tuple of (kind, cond, label)"""
     tag = t[0]
     if tag == 'join':
-        for x in sorted(t[1], key=repr):
+        # members in set order: deterministic because vf pins PYTHONHASHSEED (sorting by repr was the hot spot)
+        for x in (t[1] if os.environ.get('PYTHONHASHSEED') == '0' else sorted(t[1], key=repr)):
             yield from leaves(x, conds)
     elif tag == 'if':
         if t[1] == ('const', True):
